@@ -192,8 +192,8 @@ func (cb *CellBuffer) UnlockCell(x, y int) {
 }
 
 // Resize is used to resize the cells array, with different dimensions,
-// while preserving the original contents.  The cells will be invalidated
-// so that they can be redrawn.
+// while preserving the original contents and locks.  The cells will be
+// invalidated so that they can be redrawn.
 func (cb *CellBuffer) Resize(w, h int) {
 	if cb.h == h && cb.w == w {
 		return
@@ -208,6 +208,7 @@ func (cb *CellBuffer) Resize(w, h int) {
 			nc.currComb = oc.currComb
 			nc.currStyle = oc.currStyle
 			nc.width = oc.width
+			nc.lock = oc.lock
 			nc.lastMain = rune(0)
 		}
 	}
